@@ -237,6 +237,14 @@ def run(ctx):
         tg = getattr(pool, "twins", [])
         for k_ in range(0, len(tg), 2):
             hists.append(([tg[k_], tg[k_ + 1]], "0")); hists.append(([tg[k_ + 1], tg[k_], tg[k_ + 1]], "0"))
+        # a regional locale loaded first, then the plain language, then another regional locale of that language
+        def _find(loc, s_):
+            return next(i for i, c in enumerate(P) if c["fn"] == "gdd" and c["s"] == s_ and c["kw"].get("locales") == [loc])
+        for r1, b_, r2 in (("en-CA", "en", "en-AU"), ("en-AU", "en", "en-CA"), ("de-CH", "de", "de-CH"), ("fr-CA", "fr", "fr-CA")):
+            try:
+                hists.append(([_find(r1, "02/03/2020"), _find(b_, "02/03/2020"), _find(r2, "02/03/2020"), _find(r1, "02/03/2020")], "0"))
+            except StopIteration:
+                pass
         for a in getattr(pool, "poison", []):
             for b in getattr(pool, "sensitive", []):
                 hists.append(([a, b], "0"))
